@@ -337,6 +337,15 @@ class StaleFlow(Flow):
                     for e in loop.iter.elts:
                         self.ev_pop(e.value, s)
                 return s
+            if f.attr in ('update', 'setdefault') and isinstance(f.value, ast.Attribute) and f.value.attr == '__dict__' \
+                    and is_self(f.value.value):
+                # bulk seeding of the instance dict with unknown keys: every
+                # cache may now hold a value that was not computed from the current state
+                for L in s:
+                    if s[L] != S:
+                        s[L] = S
+                        self.stale_cause.setdefault(L, ('__dict__ (bulk update)', n, self.cur))
+                return s
             if f.attr in ('clear',) and isinstance(f.value, ast.Attribute) and f.value.attr == '__dict__' \
                     and is_self(f.value.value):
                 self.ev_reset_all(s)
